@@ -112,3 +112,45 @@ theorem count_grid (M n S bound : Nat) (hS : S ≤ n) (hb : M * n ≤ bound) :
     rw [h2, Nat.add_mul, Nat.one_mul]
 
 end Retro.Surface
+
+namespace Retro.Surface
+
+/-- `w 0 + … + w (M−1)` -/
+def rowSum (w : Nat → Nat) : Nat → Nat
+  | 0 => 0
+  | M + 1 => rowSum w M + w M
+
+/-- Counting index by rows of width `n`: if in row `j < M` exactly the first `w j` columns satisfy
+`p`, and nothing from `M·n` on does, the number of indices below `bound` satisfying `p` is `Σ w j`. -/
+theorem count_rows (M n bound : Nat) (p : Nat → Bool) (w : Nat → Nat) (hb : M * n ≤ bound)
+    (hw : ∀ j, j < M → w j ≤ n)
+    (hp : ∀ j, j < M → ∀ i, i < n → (p (j * n + i) = true ↔ i < w j))
+    (htail : ∀ k, M * n ≤ k → p k = false) :
+    ((List.range bound).filter p).length = rowSum w M := by
+  obtain ⟨d, rfl⟩ : ∃ d, bound = M * n + d := ⟨bound - M * n, by omega⟩
+  rw [List.range_add, List.filter_append, List.length_append]
+  have ht : (List.filter p (List.map (fun x => M * n + x) (List.range d))) = [] := by
+    rw [List.filter_eq_nil_iff]
+    intro x hx
+    rw [List.mem_map] at hx
+    obtain ⟨i, _, rfl⟩ := hx
+    rw [htail _ (by omega)]
+    simp
+  rw [ht, List.length_nil, Nat.add_zero]
+  clear ht htail hb
+  induction M with
+  | zero => simp [rowSum]
+  | succ M ih =>
+    rw [Nat.add_mul, Nat.one_mul, List.range_add, List.filter_append, List.length_append,
+      ih (fun j hj => hw j (by omega)) (fun j hj => hp j (by omega))]
+    rw [count_prefix (M * n) n (w M) p (hw M (by omega)) (fun i hi => hp M (by omega) i hi)]
+    rfl
+
+theorem rowSum_const (S : Nat) (w : Nat → Nat) (M : Nat) (h : ∀ j, j < M → w j = S) :
+    rowSum w M = M * S := by
+  induction M with
+  | zero => simp [rowSum]
+  | succ M ih =>
+    rw [rowSum, ih (fun j hj => h j (by omega)), h M (by omega), Nat.add_mul, Nat.one_mul]
+
+end Retro.Surface
